@@ -1,5 +1,6 @@
 CONSTANTS NK = 3  NM = 2  MaxPasses = 2
           Shapes <- ShapesOC  Coins <- CoinsQ  HashTypes <- HTq  Passes <- DeepPasses  KcAdds <- NoKcAdds
+CONSTANT Edits <- NoEdits
 SPECIFICATION Spec
 INVARIANTS OutcomesCharacterized
 CHECK_DEADLOCK FALSE
